@@ -284,8 +284,19 @@ fn check_case(rep: &mut Report, kind: &str, input: &[u8], rng: &mut Rng, rt: &to
     }
 }
 
+#[cfg(feature = "net")]
+#[path = "c02_net.rs"]
+mod net;
+
 pub fn run(args: &Args) -> Report {
     match args.stage.as_str() {
+        #[cfg(feature = "net")]
+        "net" => return net::parent(args),
+        #[cfg(feature = "net")]
+        "net-worker" => {
+            net::worker(args);
+            std::process::exit(0);
+        }
         "child" => return run_child_parent(args),
         "child-worker" => {
             run_child_worker(args);
